@@ -309,3 +309,231 @@ def suite_store(ctx):
         return bad
     return Suite('store', s, oracles=[oracle], note='store of random seeds; load of valid images, field-wise mutations (header bytes, v1, byte 28, byte 29, v2), bit flips and random buffers',
                  exhaustive=ctx.thorough)
+
+
+# ---------------------------------------------------------------- S-find
+
+def strip_marks_u(u):
+    return ''.join(c for c in u if not unicodedata.combining(c))
+
+
+def rule_match(L, tok, word):
+    """C08's rule, written from the property statement: exact word, or a prefix of at least four
+    characters; accents (combining marks of the NFKD form) ignored in Spanish and French."""
+    try:
+        t = unicodedata.normalize('NFKD', tok.decode('utf-8'))
+        w = word.decode('utf-8')
+    except UnicodeDecodeError:
+        return tok == word
+    if L['accents']:
+        t, w = strip_marks_u(t), strip_marks_u(w)
+    else:
+        t = t if tok.decode('utf-8') == t else tok.decode('utf-8')
+    if t == w:
+        return True
+    return bool(L['prefix']) and len(t) >= 4 and w.startswith(t)
+
+
+class RuleIndex:
+    """C08's rule as a lookup structure: candidates(tok) = indices of the words the rule accepts the token for"""
+
+    def __init__(self, L, words):
+        import bisect
+        self.L = L
+        self.bisect = bisect
+        self.raw = {}
+        for i, w in enumerate(words):
+            self.raw.setdefault(w, []).append(i)
+        self.keys = []
+        for i, w in enumerate(words):
+            try:
+                u = w.decode('utf-8')
+            except UnicodeDecodeError:
+                u = None
+            if u is not None and L['accents']:
+                u = strip_marks_u(u)
+            self.keys.append(u)
+        self.sorted = sorted((k, i) for i, k in enumerate(self.keys) if k is not None)
+        self.skeys = [k for k, _ in self.sorted]
+
+    def candidates(self, tok):
+        if not tok:
+            return []
+        try:
+            t0 = tok.decode('utf-8')
+        except UnicodeDecodeError:
+            return list(self.raw.get(tok, []))
+        t = unicodedata.normalize('NFKD', t0)
+        if self.L['accents']:
+            t = strip_marks_u(t)
+        else:
+            t = t0
+        lo = self.bisect.bisect_left(self.skeys, t)
+        out = []
+        j = lo
+        while j < len(self.skeys) and self.skeys[j].startswith(t):
+            k, i = self.sorted[j]
+            if k == t or (self.L['prefix'] and len(t) >= 4):
+                out.append(i)
+            j += 1
+        return sorted(out)
+
+
+def word_variants(L, word, rnd, full):
+    """tokens derived from one word: every prefix length, accents kept/dropped (every subset for short words), continuations"""
+    out = [word]
+    try:
+        u = word.decode('utf-8')
+    except UnicodeDecodeError:
+        return out
+    base = [i for i, c in enumerate(u) if not unicodedata.combining(c)]
+    cuts = list(range(1, len(base) + 1))
+    for k in cuts:
+        end = base[k] if k < len(base) else len(u)
+        p = u[:end]                      # keeps the accents of the kept letters
+        out.append(p.encode())
+        marks = [i for i, c in enumerate(p) if unicodedata.combining(c)]
+        if marks:
+            subsets = range(1, 1 << len(marks)) if len(marks) <= 3 else [rnd.randrange(1, 1 << len(marks)) for _ in range(4)]
+            for m in subsets:
+                q = ''.join(c for i, c in enumerate(p) if not (i in marks and (m >> marks.index(i)) & 1))
+                out.append(q.encode())
+    # composed input form (what a user types) only matters through NFKD, exercised via the API; here: raw continuations
+    out.append(word + b'x')
+    out.append(word + b's')
+    if full:
+        out.append(word + '日'.encode())     # a non-accent non-ASCII continuation
+        out.append(word[:-1] if len(word) > 1 else word)
+        out.append(word + b'\xcc\x81')
+    return out
+
+
+def suite_find(ctx):
+    rnd = ctx.rnd('find')
+    Ls = ctx.langs
+    s = []
+    exp = {}
+    stride = 1 if ctx.thorough else 6
+    for li in range(Ls.n):
+        L = Ls.langs[li]
+        words = Ls.words(li)
+        off = rnd.randrange(stride)
+        for wi in range(off, len(words), stride):
+            for tok in word_variants(L, words[wi], rnd, (wi // stride) % 4 == 0):
+                if b'\x00' in tok or not tok:
+                    continue
+                line = 'find %d %s' % (li, hx(tok))
+                if line not in exp:
+                    exp[line] = (li, tok)
+                    s.append(line)
+        s.append('find %d -' % li)
+    # synthetic flag combinations (reach compare_str_noaccent, which no shipped language selects)
+    for li, flags in [(3, 0b1010), (3, 0b1000), (3, 0b1110), (0, 0b1000), (0, 0b1100), (4, 0b1010), (8, 0b0000), (2, 0b1000)]:
+        if li >= Ls.n:
+            continue
+        words = Ls.words(li)
+        for wi in rnd.sample(range(len(words)), 150 if ctx.thorough else 40):
+            for tok in word_variants(Ls.langs[li], words[wi], rnd, True)[:12]:
+                if tok and b'\x00' not in tok:
+                    s.append('findx %d %d %s' % (li, flags, hx(tok)))
+
+    def oracle(ops):
+        bad = []
+        cache = {}
+        idx = {li: RuleIndex(Ls.langs[li], Ls.words(li)) for li in range(Ls.n)}
+        for op in ops:
+            if not op.head.startswith('find '):
+                continue
+            t = op.head.split()
+            li = int(t[1])
+            tok = b'' if t[2] == '-' else bytes.fromhex(t[2])
+            L = Ls.langs[li]
+            words = Ls.words(li)
+            got = int(op.kv('v'))
+            # candidates by the rule
+            if li not in cache:
+                cache[li] = {}
+            # cheap candidate search: exact or prefix over the table
+            cand = idx[li].candidates(tok)
+            want = cand[0] if len(cand) == 1 else (-1 if not cand else None)
+            if want is None:
+                # ambiguous by the rule itself: the table facts (C07) exclude this
+                bad.append(('C07', 'ambiguous-token', 'token %r is accepted for several words %s by the rule' % (tok, cand[:4]), [op.head]))
+                continue
+            if got != want:
+                try:
+                    ts = tok.decode('utf-8')
+                except UnicodeDecodeError:
+                    ts = repr(tok)
+                if want >= 0 and got == -1 and L['accents'] and tok[-1] >= 0x80:
+                    key = 'prefix-ending-in-accent'
+                elif want == -1 and got >= 0 and L['accents'] and any(b >= 0x80 for b in tok):
+                    key = 'non-accent-nonascii-ignored'
+                else:
+                    key = 'find-rule'
+                bad.append(('C08', key, 'lang %d (%s): token "%s" (%s) is %s, the rule says %s' % (
+                    li, L['name_en'].decode(), ts, tok.hex(), 'rejected' if got < 0 else 'accepted as word %d "%s"' % (got, words[got].decode('utf-8', 'replace')),
+                    'no word matches' if want < 0 else 'it is word %d "%s"' % (want, words[want].decode('utf-8', 'replace'))), [op.head]))
+        return bad
+    return Suite('find', s, oracles=[oracle], exhaustive=ctx.thorough,
+                 note='every %s word of every language x every prefix length x accents kept/dropped (all subsets up to 3 marks) x continuations, through polyseed_lang_find_word; synthetic flag combinations' % ('' if ctx.thorough else '6th'))
+
+
+# ---------------------------------------------------------------- S-detect (unit-level auto-detection)
+
+def suite_detect(ctx):
+    rnd = ctx.rnd('detect')
+    Ls = ctx.langs
+    s = []
+    pools = {li: Ls.words(li) for li in range(Ls.n)}
+    common = {}
+    for a in range(Ls.n):
+        for b in range(a + 1, Ls.n):
+            c = list(set(pools[a]) & set(pools[b]))
+            if len(c) >= 4:
+                common[(a, b)] = c
+    for _ in range(3000 if ctx.thorough else 500):
+        li = rnd.randrange(Ls.n)
+        toks = [rnd.choice(pools[li]) for _ in range(16)]
+        k = rnd.random()
+        if k < 0.25 and common:
+            (a, b) = rnd.choice(list(common))
+            toks = [rnd.choice(common[(a, b)]) for _ in range(16)]
+            if rnd.random() < 0.5:
+                toks[rnd.randrange(16)] = rnd.choice(pools[a])
+        elif k < 0.45:
+            lj = rnd.randrange(Ls.n)
+            toks[rnd.randrange(16)] = rnd.choice(pools[lj])
+        elif k < 0.55:
+            toks[rnd.randrange(16)] = b''
+        elif k < 0.65:
+            toks[rnd.randrange(16)] = b'zzzz'
+        s.append('pdecode ' + ' '.join(hx(t) for t in toks))
+        if rnd.random() < 0.3:
+            s.append('pdecodex %d ' % rnd.randrange(Ls.n) + ' '.join(hx(t) for t in toks))
+
+    def oracle(ops):
+        bad = []
+        idx = {li: RuleIndex(Ls.langs[li], Ls.words(li)) for li in range(Ls.n)}
+        for op in ops:
+            if not op.head.startswith('pdecode '):
+                continue
+            toks = [b'' if t == '-' else bytes.fromhex(t) for t in op.head.split()[1:]]
+            rec = []
+            for li in range(Ls.n):
+                L = Ls.langs[li]
+                ok = True
+                for t in toks:
+                    if not t or len(idx[li].candidates(t)) != 1:
+                        ok = False
+                        break
+                if ok:
+                    rec.append(li)
+            st = op.kv('st')
+            want = '2' if not rec else ('0' if len(rec) == 1 else '7')
+            if st != want:
+                bad.append(('C09', 'detect', 'languages %s recognise all 16 tokens but phrase_decode returned status %s (expected %s)' % (rec, st, want), [op.head]))
+            elif st == '0' and op.kv('lang') != str(rec[0]):
+                bad.append(('C09', 'detect-lang', 'reported language %s, the only recognising language is %d' % (op.kv('lang'), rec[0]), [op.head]))
+        return bad
+    return Suite('detect', s, oracles=[oracle], note='polyseed_phrase_decode on 16-token lists: single language, all-common words (Chinese lists share 1275), one foreign/empty/garbage token')
